@@ -84,6 +84,12 @@ Theorem C17_duplicates_would_mispair :
        = ODone (Inv (lit "foo_bar") (VCtx 1 2) [VData 7]) 200.
 Proof. exact duplicates_would_mispair. Qed.
 
+(* The comparison `gen def = items read from the expansion` made by the correspondence check is
+   a sound equality test (the model's side is first shown as rustc's printer shows identifiers,
+   Macro.shown). *)
+Theorem C17_check_equality_sound : forall a b, generated_eqb a b = true -> a = b.
+Proof. exact generated_eqb_sound. Qed.
+
 (* non-vacuity: an accepted definition with raw identifiers, same-typed siblings, a cfg'd-out
    method and derive options; what its scripted calls observe *)
 Example C17_nonvacuous :
@@ -103,3 +109,4 @@ Print Assumptions C17_wrong_variant_not_ok.
 Print Assumptions C17_monitor.
 Print Assumptions C17_name_unraw_refuted.
 Print Assumptions C17_duplicates_would_mispair.
+Print Assumptions C17_check_equality_sound.
